@@ -18,6 +18,65 @@ def run_shard(harness, k, n, sd):
     return out
 
 
+# ---- rename sweep over feature-sweep programs (harness/src/bin/rnsweep.rs) and probes of the recorded findings ----
+P_PARAM = ("FUNCTION_BLOCK Acc\nVAR_INPUT\n  x : DINT;\nEND_VAR\nVAR_OUTPUT\n  y : DINT;\nEND_VAR\ny := y + x;\nEND_FUNCTION_BLOCK\n"
+           "PROGRAM Main\nVAR\n  a : Acc;\n  i : DINT;\nEND_VAR\na(x := DINT#2, y => i);\nEND_PROGRAM\n", "  x : DINT", "xnew")
+P_ENUM = ("TYPE\n  Color : (Red, Green, Blue);\nEND_TYPE\nPROGRAM Main\nVAR\n  c : Color;\nEND_VAR\nc := Color#Green;\nEND_PROGRAM\n", "Green, Blue", "Lime")
+P_FIELD = ("TYPE\n  R1 : STRUCT\n    g : BOOL;\n  END_STRUCT;\n  R2 : STRUCT\n    r : R1;\n  END_STRUCT;\nEND_TYPE\n"
+           "PROGRAM Main\nVAR\n  s1 : R1;\n  s2 : R2;\n  b : BOOL;\nEND_VAR\nb := s1.g OR s2.r.g;\nEND_PROGRAM\n", "    g : BOOL", "flag")
+P_INHERIT = ("FUNCTION_BLOCK Base\nVAR PUBLIC\n  cnt : DINT;\nEND_VAR\nMETHOD PUBLIC Advance : DINT\ncnt := cnt + DINT#1;\nAdvance := cnt;\nEND_METHOD\nEND_FUNCTION_BLOCK\n"
+             "FUNCTION_BLOCK Derived EXTENDS Base\nMETHOD PUBLIC OVERRIDE Advance : DINT\nAdvance := SUPER.Advance() + cnt;\nEND_METHOD\nEND_FUNCTION_BLOCK\n"
+             "PROGRAM Main\nVAR\n  d : Derived;\n  i : DINT;\nEND_VAR\ni := d.Advance();\nEND_PROGRAM\n", "Advance : DINT\ncnt", "Forward")
+PROBES = [("parameter-rename-misses-named-arguments", P_PARAM), ("typed-literal-references-missed", P_ENUM),
+          ("nested-field-references-missed", P_FIELD), ("inherited-member-rename", P_INHERIT)]
+
+
+def rename_probe(binary, name, probe):
+    src, anchor, new = probe
+    off = src.index(anchor) + (len(anchor) - len(anchor.lstrip()))
+    path = os.path.join(WORK, "probe_%s.st" % name)
+    open(path, "w").write(src)
+    rc, out = vlib.run([binary, "--one", path, str(off), new], timeout=120)
+    lines = out.strip().split("\n")
+    if lines and lines[0].startswith("refused"):
+        return False, "refused"
+    newerr = [l for l in lines if l.startswith("DIAG") and "severity: Error" in l]
+    beh = [l.split(None, 1)[1] for l in lines if l.startswith("before") or l.startswith("after")]
+    hit = bool(newerr) or (len(beh) == 2 and beh[0] != beh[1])
+    return hit, (newerr[0][:200] if newerr else "behaviour %s -> %s" % tuple(beh) if len(beh) == 2 else out[:200])
+
+
+def rename_sweep(tier, sd):
+    os.makedirs(WORK, exist_ok=True)
+    sweep = vlib.cargo_build("stsweep"); rn = vlib.cargo_build("rnsweep")
+    n = 250 if tier == "quick" else 3000
+    srcdir = os.path.join(WORK, "sweep_src"); out = os.path.join(WORK, "sweep.out")
+    env = vlib.env_base(); env["VERIF_KEEP_ALL_SRC"] = "1"
+    rc, o = vlib.run([sweep, str(n), out, srcdir], env=env, timeout=3000)
+    if rc != 0:
+        raise vlib.CheckError("stsweep failed: " + o[-1000:])
+    # programs with inheritance are left to the probe of the recorded finding
+    kept = 0
+    for f in sorted(os.listdir(srcdir)):
+        if "EXTENDS" in open(os.path.join(srcdir, f)).read():
+            os.remove(os.path.join(srcdir, f))
+        else:
+            kept += 1
+    res = os.path.join(WORK, "rename_sweep.out")
+    rc, o = vlib.run([rn, srcdir, res, "6"], timeout=3000)
+    if rc != 0:
+        raise vlib.CheckError("rnsweep failed: " + o[-1000:])
+    counts, bad = {}, []
+    for line in open(res):
+        head, _, r = line.rstrip("\n").partition(" : ")
+        counts[r] = counts.get(r, 0) + 1
+        if r not in ("refused", "e1 d1 b1"):
+            bad.append((head, r))
+    cov = {"programs": kept, "renames": sum(counts.values()), "outcomes": counts,
+           "note": "testing, not proof: identifiers of feature-sweep programs renamed to fresh and to colliding names; oracles: edits well-formed (e), no new error diagnostics (d), same run-time behaviour (b); parameters, enumeration types / values and struct fields are not renamed here (recorded findings, probed separately)"}
+    return bad, cov, srcdir, rn
+
+
 def check(tier):
     t0 = time.time()
     sd = vlib.seed()
@@ -59,8 +118,27 @@ def check(tier):
     if not pr["ok"] and not violations:
         path = vlib.write_replay(PROP, {"property": PROP, "broken": "proof obligations of Properties/C16.v", "failures": pr["failures"]})
         violations.append((path, "proof/hygiene gate failed: " + "; ".join(pr["failures"])[:300], True))
+    # rename sweep + probes of the recorded findings
+    known_lines = []
+    listed = dict(vlib.known_findings(PROP))
+    sbad, scov, ssrc, rnbin = rename_sweep(tier, sd)
+    if sbad and not violations:
+        head, r = sbad[0]
+        fn, off, old, new = head.split()[:4]
+        what = "rename of '%s' to '%s' in a feature-sweep program was accepted and %s" % (old, new, "; ".join(w for w, k in (("produced malformed edits", "e0"), ("introduced error diagnostics", "d0"), ("changed the run-time behaviour", "b0")) if k in r))
+        path = vlib.write_replay(PROP, {"property": PROP, "what": what, "source": open(os.path.join(ssrc, fn)).read(), "offset": int(off), "old_name": old, "new_name": new, "flags": r,
+                                        "replay": ".cache/target/debug/rnsweep --one <file with source> %s %s" % (off, new), "failing_renames": len(sbad)})
+        violations.append((path, what, False))
+    for key, probe in PROBES:
+        hit, detail = rename_probe(rnbin, key, probe)
+        if key in listed:
+            known_lines.append("%s (%s)" % (listed[key][:500], "re-observed on the probe program: " + detail[:120] if hit else "NOT re-observed on the probe program: " + detail[:80]))
+        elif hit and not violations:
+            path = vlib.write_replay(PROP, {"property": PROP, "what": "rename probe %s: %s" % (key, detail), "source": probe[0], "anchor": probe[1], "new_name": probe[2]})
+            violations.append((path, "an accepted rename breaks the program (%s): %s" % (key, detail[:160]), False))
     acc = [r for r in good if r["impl"].split()[0] == "0"]
     cov = {
+        "rename_sweep": scov,
         "obligations": pr["obligations"], "discharged": pr["discharged"],
         "checker_cmd": "make -C coq Properties/C16.vo Extract/C16x.vo (coqc 8.16.1) + Print Assumptions gate",
         "trusted_base": vlib.TRUSTED_BASE, "theorems": pr["theorems"], "axioms": pr["axioms"],
@@ -69,10 +147,10 @@ def check(tier):
         "accepted": len(acc), "refused": len(good) - len(acc), "model_impl_disagreements": len(diffs), "binding_changes": len(capture), "flag_failures": len(broken),
         "samples": [r["line"][:200] for r in good[:2]],
     }
-    assumptions = ["two-level scoping (project level / POU locals); methods, namespaces, USING, inheritance, struct fields, types and multi-declaration renames are outside the model and the generator",
+    assumptions = ["two-level scoping (project level / POU locals); methods, namespaces, USING, inheritance, struct fields, types and multi-declaration renames are outside the model and its generator; they are exercised by the rename sweep (testing, not proof) except for the four recorded findings",
                    "run-time behaviour is compared only for consistently spelled projects: the runtime looks variables up case-sensitively (known finding of C01)",
                    "a refused rename-back is not counted as a failure (the conservative check refuses names that would newly shadow a project-level name)"]
-    return vlib.finish(PROP, tier, "proof", cov, assumptions, t0, violations)
+    return vlib.finish(PROP, tier, "proof", cov, assumptions, t0, violations, known_lines)
 
 
 def replay(path):
